@@ -813,3 +813,204 @@ func blockCachePremise(pr *Prover, in ssa.Instruction) (bool, string) {
 	}
 	return false, "not provable even with the cache invariant"
 }
+
+// liftToCallSites: an obligation of an unexported helper that cannot be proved inside it is a precondition of the
+// helper; it is discharged when it is provable at every call site, with the helper's parameters (and fields loaded
+// through them) replaced by the caller's arguments.  Only goals whose terms are parameters, lengths of parameters,
+// or values / lengths loaded through an unmodified field path of a parameter can be lifted.
+func liftToCallSites(pr *Prover, in ssa.Instruction, goals []Lin, extraFor func(g *ssa.Function, glc *LinCtx) []Lin) (bool, string) {
+	fn := in.Parent()
+	if fn.Object() == nil || fn.Object().Exported() || fn.Parent() != nil {
+		return false, ""
+	}
+	type term struct {
+		kind string // "param" | "lenparam" | "valpath" | "lenpath"
+		pi   int
+		ps   pathSpec
+	}
+	terms := map[int]term{}
+	var specs []pathSpec
+	specIdx := map[string]int{}
+	for _, g := range goals {
+		for _, a := range g.atoms() {
+			if _, done := terms[a]; done {
+				continue
+			}
+			k := pr.lc.keys[a]
+			switch {
+			case k.kind == akVal || k.kind == akLen:
+				if pa, ok := k.v.(*ssa.Parameter); ok {
+					kind := "param"
+					if k.kind == akLen {
+						kind = "lenparam"
+					}
+					terms[a] = term{kind: kind, pi: paramIndex(fn, pa)}
+					continue
+				}
+				ps, ok := pathOfLoad(fn, k.v)
+				if !ok {
+					return false, ""
+				}
+				for _, f := range ps.Fields {
+					if c08ctx.av.mods[fn][f] {
+						return false, ""
+					}
+				}
+				kind := "valpath"
+				if k.kind == akLen {
+					kind = "lenpath"
+				}
+				if _, seen := specIdx[ps.String()]; !seen {
+					specIdx[ps.String()] = len(specs)
+					specs = append(specs, ps)
+				}
+				terms[a] = term{kind: kind, ps: ps}
+			default:
+				return false, ""
+			}
+		}
+	}
+	sites := 0
+	for _, g := range c08ctx.p.Funcs {
+		var glc *LinCtx
+		var gpr *Prover
+		for _, b := range g.Blocks {
+			for _, ins := range b.Instrs {
+				var buf [10]*ssa.Value
+				ci, isCall := ins.(ssa.CallInstruction)
+				for _, op := range ins.Operands(buf[:0]) {
+					if *op == ssa.Value(fn) && !(isCall && ci.Common().Value == ssa.Value(fn)) {
+						return false, "the function is used as a value in " + FnName(g)
+					}
+				}
+				if !isCall || ci.Common().StaticCallee() != fn {
+					continue
+				}
+				sites++
+				if glc == nil {
+					glc = NewLinCtx(c08ctx.p, g)
+					save := c08ctx.av.pathsAtCall
+					c08ctx.av.pathsAtCall = func(c ssa.CallInstruction) []pathSpec {
+						if c.Common().StaticCallee() == fn {
+							return specs
+						}
+						if save != nil {
+							return save(c)
+						}
+						return nil
+					}
+					glc.alias = c08ctx.av.Run(g)
+					c08ctx.av.pathsAtCall = save
+					c08ctx.rf.install(glc)
+					gpr = NewProver(c08ctx.p, g, glc)
+				}
+				reps := c08ctx.av.CallPaths[ci]
+				if len(reps) < len(specs) {
+					return false, "cannot name the paths at the call in " + FnName(g)
+				}
+				args := ci.Common().Args
+				var extra []Lin
+				if extraFor != nil {
+					extra = extraFor(g, glc)
+				}
+				for gi, goal := range goals {
+					cg := constLin(goal.c)
+					for _, a := range goal.atoms() {
+						t := terms[a]
+						var l Lin
+						switch t.kind {
+						case "param":
+							if t.pi >= len(args) {
+								return false, ""
+							}
+							l = glc.Lin(args[t.pi])
+						case "lenparam":
+							if t.pi >= len(args) {
+								return false, ""
+							}
+							l = glc.LenLin(args[t.pi])
+						case "valpath", "lenpath":
+							rep := reps[specIdx[t.ps.String()]]
+							if rep == nil {
+								return false, "cannot name " + t.ps.String() + " at the call in " + FnName(g)
+							}
+							if t.kind == "lenpath" {
+								l = glc.LenLin(rep)
+							} else {
+								l = glc.Lin(rep)
+							}
+						}
+						cg = cg.add(l, goal.coef[a])
+					}
+					if ok, _ := gpr.ProveWith(ins.Block(), extra, cg); !ok {
+						return false, fmt.Sprintf("precondition #%d of %s is not provable at the call in %s [%s ≤ 0]", gi+1, FnName(fn), FnName(g), glc.Format(cg))
+					}
+				}
+			}
+		}
+	}
+	if sites == 0 {
+		return false, ""
+	}
+	return true, fmt.Sprintf("a precondition of the unexported helper, proved at all %d call site(s)", sites)
+}
+
+// blockCacheFacts: for a method of a struct that keeps a per-index cache of a wire message's list (bchutil.Block), the
+// class invariant len(cache) = len(msg.Transactions) as linear facts — provided every make of the cache anywhere is
+// sized by len(….Transactions) (checked here, and by C16.index).
+func blockCacheFacts(p *Program, g *ssa.Function, glc *LinCtx) []Lin {
+	if len(g.Params) == 0 || g.Signature.Recv() == nil {
+		return nil
+	}
+	recv := ssa.Value(g.Params[0])
+	dt := derefType(recv.Type())
+	if dt == nil {
+		return nil
+	}
+	st, ok := dt.Underlying().(*types.Struct)
+	if !ok {
+		return nil
+	}
+	var extra []Lin
+	for i := 0; i < st.NumFields(); i++ {
+		cf := st.Field(i)
+		sl, isSl := cf.Type().Underlying().(*types.Slice)
+		if !isSl {
+			continue
+		}
+		if _, isPtr := sl.Elem().Underlying().(*types.Pointer); !isPtr {
+			continue
+		}
+		okField := true
+		for _, h := range p.Funcs {
+			for _, b := range h.Blocks {
+				for _, in2 := range b.Instrs {
+					s2, ok := in2.(*ssa.Store)
+					if !ok {
+						continue
+					}
+					fa, ok := s2.Addr.(*ssa.FieldAddr)
+					if !ok || fieldOfAddr(fa) != cf {
+						continue
+					}
+					if _, fresh := canonRoot(fa.X).(*ssa.Alloc); fresh && isNilConst(s2.Val) {
+						continue
+					}
+					ms, ok := s2.Val.(*ssa.MakeSlice)
+					if !ok {
+						okField = false
+						continue
+					}
+					c, ok := stripIntConv(ms.Len).(*ssa.Call)
+					if !ok || !isBuiltin(&c.Call, "len") || !strings.Contains(exprString(c.Call.Args[0]), ".Transactions") {
+						okField = false
+					}
+				}
+			}
+		}
+		if okField {
+			extra = append(extra, cacheInvariant(glc, g, recv, cf)...)
+		}
+	}
+	return extra
+}
